@@ -33,9 +33,10 @@ def cases(tier, seed):
     for sh in shifts:
         for T in TS:
             for M in MS:
-                T2 = T * (1 + 0.731 * sh)
-                M2 = M * (1 + 0.317 * sh)
-                yield dict(kind='triple', T=T2, M=M2, wr=[w * (1 + 0.5 * sh) if w else 0 for w in WR],
+                # shifted lattices stay inside the property's domain: T <= 1e8, M <= 12, W <= 1.5 M
+                T2 = min(T * (1 + 0.731 * sh), 1e8)
+                M2 = min(M * (1 + 0.317 * sh), 12.0)
+                yield dict(kind='triple', T=T2, M=M2, wr=[min(w * (1 + 0.5 * sh), 1.5) if w else 0 for w in WR],
                            n=2001 if tier == 'quick' else 8001)
     yield dict(kind='invalid')
     for neg in (None, -1, -30, -5000):
